@@ -9,17 +9,23 @@ import core
 from core import f2b, b2f
 
 PROP = "C19"
-COUNT = {"quick": 220, "thorough": 6000, "search": 1500}
+COUNT = {"quick": 250, "thorough": 6000, "search": 1500}
 PARALLEL = True
 S = 1024
 RULE = ("paired entry/exit particle lists, 2..60 particles in 1..3 tomograms (rows of different tomograms interleaved, tomogram ids "
         "unsorted, subtomo ids globally unique or restarting per tomogram, coordinates split between x and shift_x), coordinates on "
         "the 2^-10 grid; five generators: random displacement, polysome-like random walks with shuffled row order, dense clusters, "
-        "branch cascades (the D18 prefix-cut -> two-sided-merge -> tail-cut arrangement and the 8-particle double-cut arrangement "
-        "under random rotation/scale/jitter with bystander chains inserted), competing exits; min_distance = 0 or 0.1..0.6*max. "
-        "Ties are excluded by construction (all in-range exit->entry squared distances pairwise distinct, none equal to min^2, max^2 or 0). "
-        "non-trivial = >= 3 particles and at least one returned chain with >= 2 members (the histogram cases_with_branch counts the "
-        "cases per merge branch taken by the model); distinct = distinct case content")
+        "competing exits, and branch cascades: one hand-built arrangement per combination of the suffix and the prefix branch of a "
+        "two-sided merge (D18: attach after a chain end + before a chain start; DOUBLE_CUT: tail cut + head cut; SK_BC: chain end + head "
+        "cut; SC_B: tail cut + chain start) plus prefix-cut and suffix cascades, under random rotation/scale/jitter, alone or two of them "
+        "interleaved, with bystander chains inserted; min_distance = 0 or 0.1..0.6*max. "
+        "Ties are excluded by construction in GENERATED cases (all in-range exit->entry squared distances pairwise distinct, none equal to "
+        "min^2, max^2 or 0); the corpus case min_distance_tie_lattice puts a distance exactly at min_distance and one exactly at "
+        "max_distance on an integer lattice (3-4-5 triangle), where the comparison is exact, and is judged by the statement's window (min, max]. "
+        "non-trivial = >= 3 particles and at least one returned chain with >= 2 members (the histograms cases_with_branch and "
+        "cases_with_chain_branch count the cases per model branch and per suffix+prefix combination of one merge; impl_branch is the "
+        "branch sequence observed in the REAL add_chain_suffix/add_chain_prefix calls, compared with the model's on every case); "
+        "distinct = distinct case content")
 ASSUMPTIONS = [
     "sklearn.neighbors.KDTree.query_radius(p, r, return_distance=True, sort_results=True) = all points with distance <= r in ascending distance (brute force); compared against the model's argmin on every case",
     "numpy float64 arithmetic on the 2^-10 grid is exact for squared distances; sqrt is monotone and injective on the values that occur, so comparing distances = comparing their squares (recorded values are compared as |sqrt(model)-geom4| <= 1e-9)",
@@ -118,7 +124,61 @@ def translate(src):
         ns.sort(key=lambda n: n.lineno)
         return [OPS[type(n.ops[0])] for n in ns]
 
+    def const_assign(fn, name):
+        vals = [n.value.value for n in ast.walk(fn) if isinstance(n, ast.Assign) and len(n.targets) == 1
+                and core.norm_expr(n.targets[0]) == name and isinstance(n.value, ast.Constant) and isinstance(n.value.value, int)]
+        if len(vals) != 1:
+            raise core.AnchorMissing(f"{fn.name}: exactly one `{name} = <int>` expected, found {vals}")
+        return int(vals[0])
+
+    def aug_steps(fn, name):
+        """all `name += <int>` statements: (count, common step)"""
+        ns = [n for n in ast.walk(fn) if isinstance(n, ast.AugAssign) and core.norm_expr(n.target) == name]
+        if not ns or not all(isinstance(n.op, ast.Add) and isinstance(n.value, ast.Constant) and isinstance(n.value.value, int) for n in ns):
+            raise core.AnchorMissing(f"{fn.name}: `{name} += <int>` statements: {[ast.unparse(n) for n in ns]}")
+        steps = {n.value.value for n in ns}
+        if len(steps) != 1:
+            raise core.AnchorMissing(f"{fn.name}: `{name} +=` with different steps {steps}")
+        return len(ns), int(steps.pop())
+
+    def both_min_len():
+        ns = [n for n in _compares(tc(), "cl_max") if isinstance(n.comparators[0], ast.Constant)]
+        if len(ns) != 1:
+            raise core.AnchorMissing(f"trace_chains: one comparison cl_max ? <const>, found {len(ns)}")
+        return OPS[type(ns[0].ops[0])], int(ns[0].comparators[0].value)
+
+    def shifts(fn, wanted):
+        """the `+=` statements on order-number columns, as normalised right-hand sides"""
+        got = sorted(core.norm_expr(n.value) for n in ast.walk(fn) if isinstance(n, ast.AugAssign) and isinstance(n.op, ast.Add)
+                     and "store_idx2" in core.norm_expr(n.target))
+        if got != sorted(wanted):
+            raise core.AnchorMissing(f"{fn.name}: order-number shifts {got}, documented {sorted(wanted)}")
+        return True
+
+    def head_marker():
+        fn = pfx()
+        marks = {n.value.operand.value for n in ast.walk(fn) if isinstance(n, ast.Assign) and "store_idx1" in core.norm_expr(n.targets[0])
+                 and isinstance(n.value, ast.UnaryOp) and isinstance(n.value.op, ast.USub) and isinstance(n.value.operand, ast.Constant)}
+        cmps = {core.norm_expr(n.comparators[0]) for n in _compares(fn, "traced_df[store_idx1]") if isinstance(n.ops[0], ast.Eq)
+                and core.norm_expr(n.comparators[0]).startswith("-")}
+        if len(marks) != 1 or cmps != {"-" + str(next(iter(marks)))}:
+            raise core.AnchorMissing(f"add_chain_prefix: temporary id of the cut-off head: assigned {marks}, compared {cmps}")
+        return -int(marks.pop())
+
     v = {}
+    v["classStart"] = A("trace_chains:class_c = 1", lambda: const_assign(tc(), "class_c"))
+    v["orderStart"] = A("trace_chains:chain_id = 1", lambda: const_assign(tc(), "chain_id"))
+    st = A("trace_chains:chain_id += 1 (once)", lambda: aug_steps(tc(), "chain_id")) or (1, 1)
+    v["orderStepSites"], v["orderStep"] = st
+    st = A("trace_chains:class_c += 1 (after every chain, and for the two-sided merge)", lambda: aug_steps(tc(), "class_c")) or (2, 1)
+    v["classStepSites"], v["classStep"] = st
+    bm = A("trace_chains:cl_max > 1", both_min_len) or ("gt", 1)
+    v["bothMinLenCmp"], v["bothMinLen"] = bm
+    v["suffixShiftDocumented"] = A("add_chain_suffix:chain_df[geom2] += chain_max_order", lambda: shifts(sfx(), ["chain_max_order"]))
+    v["prefixShiftDocumented"] = A("add_chain_prefix:traced_df[geom2] += class_max - cut_off_size (both forms)",
+                                   lambda: shifts(pfx(), ["class_max-cut_off_size", "class_max[0]-cut_off_size"]))
+    v["cutOffInit"] = A("add_chain_prefix:cut_off_size = 0", lambda: const_assign(pfx(), "cut_off_size"))
+    v["headMarker"] = A("add_chain_prefix:temporary id -1 of a head cut off in a two-sided merge", head_marker)
     v["nnSorted"] = A("get_nn_dist:query_radius sorted with distances", nn_sorted)
     v["nnTakesFirst"] = A("get_nn_dist:returns first of the sorted hits", nn_first)
     v["nnMaskCmp"] = A("get_nn_dist:active_points[id_max] == test_value", lambda: _one_op(nn(), "active_points[id_max]", "test_value", "get_nn_dist", 2))
@@ -138,7 +198,9 @@ def translate(src):
 
     doc = dict(nnSorted=True, nnTakesFirst=True, nnMaskCmp="eq", nnMinGuard="gt", nnMinCmp="gt", suffixNotLast="ne", suffixKeep="le",
                suffixTailSel="gt", tailByChainOrder=True, prefixNotFirst="ne", prefixFirstOrder=1, prefixKeep="le", prefixHeadSel="lt",
-               resolveSingle="le", resolveSameChain="le", bothSidesFreshId=True)
+               resolveSingle="le", resolveSameChain="le", bothSidesFreshId=True,
+               classStart=1, orderStart=1, orderStepSites=1, orderStep=1, classStepSites=2, classStep=1, bothMinLenCmp="gt", bothMinLen=1,
+               suffixShiftDocumented=True, prefixShiftDocumented=True, cutOffInit=0, headMarker=-1)
     lines = []
     for k, d in doc.items():
         x = v.get(k)
@@ -287,17 +349,34 @@ D18 = [((-6, 0, 0), (-60, 0, 0)), ((0, -20, 0), (0, 0, 0)), ((2, 0, 0), (2, 30, 
 DOUBLE_CUT = D18[:5] + [((100, 41, 0), (1, 41, 0)), ((1, 43.125, 0), (1, 80, 0)), ((0, 2.5, 0), (1, 41.5, 0))]
 PREFIX_CUT = [((0, -20, 0), (0, 0, 0)), ((2, 0, 0), (2, 30, 0)), ((50, 50, 0), (3.5, -1, 0))]
 SUFFIX_CASC = D18[1:4] + [((0.5, 2.6, 0), (0, 60, 0)), ((0, 2.2, 0), (20, 60, 0))]
+# two-sided merges, one arrangement per combination of the suffix and the prefix branch:
+#   D18        suffix attach to a chain end  + prefix attach to a chain start   (suffix-keep+both)
+#   DOUBLE_CUT ... and tail cut + head cut                                       (suffix-cut+both-cut)
+#   SK_BC      suffix attach to a chain end  + head cut (P freed by a prefix cut, then b1 lands between P and y2)
+#   SC_B       tail cut + prefix attach to a chain start (F lands between P and the one-particle chain z1)
+SK_BC = PREFIX_CUT + [((100, 0, 0), (100, 10, 0)), ((100, 12.25, 0), (100, 40, 0)), ((-2.9, 0, 0), (100, 11.125, 0))]
+SC_B = D18[:5] + [((0, 42.25, 0), (0, 80, 0)), ((0, 2.5, 0), (0, 40, 0))]
+CASCADES = [D18] + 4 * [DOUBLE_CUT] + 3 * [SK_BC] + 3 * [SC_B] + [PREFIX_CUT] + 3 * [SUFFIX_CASC]
 
 
 def g_cascade(rng, n_extra):
-    base = rng.choice([D18, D18, DOUBLE_CUT, DOUBLE_CUT, PREFIX_CUT, SUFFIX_CASC])
     scale = rng.choice([1.0, 1.0, 0.5, 2.0, rng.uniform(0.3, 4.0)])
-    R = _rot(rng) if rng.random() < 0.8 else [[1, 0, 0], [0, 1, 0], [0, 0, 1]]
-    off = [rng.uniform(-50, 50) for _ in range(3)]
-    jit = rng.choice([0.0, 0.01, 0.03])
-    tf = lambda p: [scale * a + o + rng.uniform(-jit, jit) * scale for a, o in zip(_app(R, list(p)), off)]
-    pts = [(tf(e), tf(x)) for e, x in base]
     maxd = 3.0 * scale
+    pts = []
+    # one arrangement, sometimes a second one far away whose rows are interleaved with the first (relative order kept)
+    for k in range(2 if rng.random() < 0.5 else 1):
+        base = rng.choice(CASCADES)
+        R = _rot(rng) if rng.random() < 0.8 else [[1, 0, 0], [0, 1, 0], [0, 0, 1]]
+        off = [rng.uniform(-50, 50) - 900 * scale * k for _ in range(3)]
+        jit = rng.choice([0.0, 0.01, 0.03])
+        tf = lambda p: [scale * a + o + rng.uniform(-jit, jit) * scale for a, o in zip(_app(R, list(p)), off)]
+        arr = [(tf(e), tf(x)) for e, x in base]
+        if k == 0:
+            pts = arr
+        else:
+            slots = sorted(rng.randint(0, len(pts)) for _ in arr)
+            for q, (slot, p) in enumerate(zip(slots, arr)):
+                pts.insert(slot + q, p)
     # bystander chains far away, inserted at random positions (relative order of the arrangement is kept)
     far = [400 * scale + 100, 0, 0]
     extra = [([a + b for a, b in zip(e, far)], [a + b for a, b in zip(x, far)]) for e, x in
@@ -314,15 +393,15 @@ def _one_tomo(rng, tier):
     n = rng.randint(2, 8) if rng.random() < 0.3 else rng.randint(2, big)
     maxd = rng.choice([3.0, 1.0, 12.5, rng.uniform(0.5, 40.0)])
     mind = 0.0 if rng.random() < 0.5 else maxd * rng.uniform(0.1, 0.6)
-    if k < 0.15:
+    if k < 0.12:
         return "random", g_random(rng, n, maxd), maxd, mind
-    if k < 0.40:
+    if k < 0.30:
         return "walks", g_walks(rng, n, maxd, mind), maxd, mind
-    if k < 0.62:
+    if k < 0.47:
         return "dense", g_dense(rng, n, maxd), maxd, mind
-    if k < 0.77:
+    if k < 0.58:
         return "compete", g_compete(rng, n, maxd), maxd, mind
-    pts, maxd = g_cascade(rng, rng.choice([0, 0, 2, 5, rng.randint(0, max(0, big - 8))]))
+    pts, maxd = g_cascade(rng, rng.choice([0, 0, 2, 5, rng.randint(0, max(0, big - 16))]))
     return "cascade", pts, maxd, (0.0 if rng.random() < 0.7 else maxd * rng.uniform(0.02, 0.2))
 
 
@@ -422,10 +501,74 @@ def _motl(case, lo):
 _LIMIT = [20]  # seconds granted to one trace_chains call (normal: < 1 s); 2 s once a call has run into the limit
 
 
+EVENT_TAGS = ("suffix-keep", "suffix-cut", "suffix-reject", "prefix", "prefix-cut", "prefix-reject", "both", "both-cut")
+
+
+def _watch_branches(ribana, events):
+    """Wrap ribana.add_chain_suffix / add_chain_prefix (module globals looked up by trace_chains at call time) so that every
+    call records which branch the REAL code took, observed from outside: return value, and whether rows of the table carry
+    the id handed to a cut-off piece afterwards.  Bookkeeping failures record "?" and never disturb the call."""
+    import inspect
+    orig = {n: getattr(ribana, n) for n in ("add_chain_suffix", "add_chain_prefix")}
+
+    def args_of(fn, a, k):
+        b = inspect.signature(fn).bind(*a, **k)
+        b.apply_defaults()
+        return b.arguments
+
+    def suffix(*a, **k):
+        cls = None
+        try:
+            g = args_of(orig["add_chain_suffix"], a, k)
+            cls = g["chain_df"][g["store_idx1"]].values[0]
+        except Exception:
+            pass
+        r = orig["add_chain_suffix"](*a, **k)
+        try:
+            if cls is None:
+                events.append("?")
+            elif not r:
+                events.append("suffix-reject")
+            else:
+                events.append("suffix-cut" if bool((g["traced_df"][g["store_idx1"]] == cls).any()) else "suffix-keep")
+        except Exception:
+            events.append("?")
+        return r
+
+    def prefix(*a, **k):
+        piece, both = None, False
+        try:
+            g = args_of(orig["add_chain_prefix"], a, k)
+            both = g["class_max"] is not None
+            piece = g["class_max"][1] if both else g["chain_df"][g["store_idx1"]].values[0]
+        except Exception:
+            pass
+        r = orig["add_chain_prefix"](*a, **k)
+        try:
+            if piece is None:
+                events.append("?")
+            elif r is not None and r == -1:
+                events.append("prefix-reject")
+            else:
+                cut = bool((g["traced_df"][g["store_idx1"]] == piece).any())
+                events.append(("both" if both else "prefix") + ("-cut" if cut else ""))
+        except Exception:
+            events.append("?")
+        return r
+
+    ribana.add_chain_suffix, ribana.add_chain_prefix = suffix, prefix
+    return orig
+
+
 def run_impl(case):
     """the real trace_chains; a call that does not return (a broken loop may cycle for ever) becomes an error observation"""
     import signal
     from cryocat import ribana
+    events, orig = [], {}
+    try:
+        orig = _watch_branches(ribana, events)
+    except Exception:
+        events = None
 
     def _expired(signum, frame):
         _LIMIT[0] = 2
@@ -438,11 +581,13 @@ def run_impl(case):
     finally:
         signal.alarm(0)
         signal.signal(signal.SIGALRM, old)
+        for n, f in orig.items():
+            setattr(ribana, n, f)
     df = out.df
     res = []
     for t, s, o, k, g in zip(df["tomo_id"], df["subtomo_id"], df["object_id"], df["geom2"], df["geom4"]):
         res.append([float(t), float(s), float(o), float(k), f2b(float(g))])
-    return {"rows": res}
+    return {"rows": res, "events": events}
 
 
 def _decode(case, obs):
@@ -526,6 +671,14 @@ def judge(case, obs, resps):
         fs.append(dict(kind="spec", clause="orders-1..k-per-chain", detail=_explain(case, out)))
     if not chk["dist"]:
         fs.append(dict(kind="spec", clause="consecutive-distance-window-and-recorded-value", detail=_explain(case, out)))
+    # correspondence of the control flow: the real code went through the same suffix/prefix branches, in the same order
+    ev = obs.get("events")
+    if ev is not None and "?" not in ev:
+        mt = [t for tm in model["tomos"] for t in tm["tags"] if t in EVENT_TAGS]
+        if ev != mt:
+            k = next((i for i, (a, b) in enumerate(zip(ev, mt)) if a != b), min(len(ev), len(mt)))
+            fs.append(dict(kind="corr", clause="impl-vs-model-branches",
+                           detail=f"branch #{k}: impl {ev[k:k+4]} model {mt[k:k+4]} (impl {len(ev)} calls, model {len(mt)})"))
     # correspondence: same rows in the same order, per tomogram
     ids, per = _tomos(case)
     for t in range(len(ids)):
@@ -549,6 +702,20 @@ def _tags(resps):
     return [t for tm in resps[0]["tomos"] for t in tm["tags"]]
 
 
+def _combos(tags):
+    """the branch taken by each completed chain: the suffix tag and the prefix tag of one two-sided merge are joined"""
+    out, k = [], 0
+    while k < len(tags):
+        t = tags[k]
+        if t in ("suffix-keep", "suffix-cut") and k + 1 < len(tags) and tags[k + 1] in ("both", "both-cut", "prefix-reject"):
+            out.append(t + "+" + tags[k + 1]); k += 2
+        elif t == "suffix-reject" and k + 1 < len(tags) and tags[k + 1] in ("prefix", "prefix-cut", "prefix-reject"):
+            out.append(t + "+" + tags[k + 1]); k += 2
+        else:
+            out.append(t); k += 1
+    return out
+
+
 def nontrivial(case, obs):
     if "error" in obs:
         return False
@@ -562,12 +729,18 @@ def stats(case, obs, resps):
     d = {"particles": "2-5" if n <= 5 else "6-12" if n <= 12 else "13-30" if n <= 30 else "31-60",
          "tomograms": len(_tomos(case)[0]), "generator": case.get("gen", "corpus").split("+"),
          "min_distance": "0" if case["min"] == 0 else ">0",
-         "model_branch": tags, "cases_with_branch": sorted(set(tags) & MERGE_TAGS) or ["append-only"]}
+         "model_branch": tags, "cases_with_branch": sorted(set(tags) & MERGE_TAGS) or ["append-only"],
+         "cases_with_chain_branch": sorted({t for tm in (resps[0].get("tomos", []) if resps else [])
+                                            for t in _combos([x for x in tm["tags"] if x != "skip"])})}
     if "error" not in obs:
         sizes = {}
         for t, s, o, k, g in obs["rows"]:
             sizes[(t, o)] = sizes.get((t, o), 0) + 1
         d["chain_length"] = ["1" if v == 1 else "2-3" if v <= 3 else "4-8" if v <= 8 else ">8" for v in sizes.values()]
+        ev = obs.get("events")
+        d["impl_branch_trace"] = "unavailable" if ev is None or "?" in ev else "compared"
+        if ev:
+            d["impl_branch"] = [e for e in ev if e != "?"]
     else:
         d["impl_error"] = obs["error"][:60]
     return d
@@ -593,13 +766,18 @@ def probes(rng):
                  detail=f"{len(brute)} hits")]
 
 
-LEVEL_TEXT = ("Lean 4 theorems about an executable model of trace_chains/get_nn_dist/add_chain_suffix/add_chain_prefix: every particle is returned "
-              "exactly once and chains stay inside their tomogram for all inputs, all distances and all operator choices (trace_partition, "
-              "trace_partition_all); the verified checker chainsOk is sound for the three clauses of the statement (check_sound) and is run on the "
-              "implementation's output of every case; order/distance clauses of the model itself are proved for the tracing loop and validated, "
-              "not proved, through the merge branches; regression witnesses tailcut_roworder_counterexample and double_cut_shared_id_counterexample")
-LEVEL_NOTE = ("trusted: Lean kernel; translator anchors (13 comparison/bookkeeping sites of ribana.py); KD-tree radius query = brute force (probed); "
-              "squared-distance decoding of geom4 in the harness; order/distance clauses on merge branches rest on the verified checker applied to "
-              "the real output of generated cases, not on a for-all theorem")
-TECHNIQUE = "Lean 4 proof (list invariants over the relabelling operations, sound decidable checker) + regenerated operator table + exact differential correspondence on dyadic grids"
+LEVEL_TEXT = ("Lean 4 theorems about an executable model of trace_chains/get_nn_dist/add_chain_suffix/add_chain_prefix, for all inputs, sizes and "
+              "distance functions: every particle is returned exactly once and chains stay inside their tomogram for every operator table "
+              "(trace_partition, trace_partition_all, trace_no_span); for the operator table read from the source (opts_documented, "
+              "numbering_documented) the ORDER clause and the DISTANCE clause hold through ALL branches - append, suffix attach with/without tail "
+              "cut, prefix attach with/without head cut, two-sided merge with/without either cut, rejected attachments - by the loop invariant "
+              "ChainsWellNumbered + link invariant (trace_chains_well_numbered, trace_orders, trace_dist), hence the whole statement "
+              "(trace_spec_full : SpecFull); the verified checker chainsOk is sound for all clauses (check_sound) and is run on the "
+              "implementation's output of every case; regression witnesses tailcut_roworder_counterexample and "
+              "double_cut_shared_id_counterexample show the two repaired defects violate exactly these invariants")
+LEVEL_NOTE = ("trusted: Lean kernel; translator anchors (24 sites of ribana.py: 13 comparison/bookkeeping operators used by the model + 11 numbering "
+              "constants/shift expressions the model hard-codes); KD-tree radius query = brute force (probed); squared-distance decoding of geom4 "
+              "in the harness; the model-to-code tie is the exact comparison of rows, recorded distances AND of the sequence of suffix/prefix "
+              "branches taken by the real add_chain_suffix/add_chain_prefix calls on every generated case")
+TECHNIQUE = "Lean 4 proof (loop invariant over relabellings of a well-numbered table, sound decidable checker) + regenerated operator table + exact differential correspondence (rows and branch trace) on dyadic grids"
 DESIGN_REF = "DESIGN.md section 4, C19"
